@@ -30,7 +30,7 @@ for pid in ${PIDS:-C01 C04 C05 C06 C07 C09 C10 C11 C12 C13 C17 C20}; do
     res=""
     for c in $pid $sibs; do
       [ "$c" = "$pid" ] && [ -n "$res" ] && continue
-      r=$(WORKERS=16 /verif/tools/seeded.sh $c "$d" $budget 2>&1 | grep "violation class=\|INCONCLUSIVE\|PATCH" | sed 's/^ *//' | tr '\n' ';' | cut -c1-160)
+      r=$(WORKERS=${WORKERS:-16} /verif/tools/seeded.sh $c "$d" $budget 2>&1 | grep "violation class=\|INCONCLUSIVE\|PATCH" | sed 's/^ *//' | tr '\n' ';' | cut -c1-160)
       if [ -n "$r" ]; then res="$res $c:[$r]"; [ "$c" = "$pid" ] && break; else res="$res $c:silent"; fi
       case "$r" in *violation*) break ;; esac
     done
